@@ -190,6 +190,52 @@ var c20Entries = []entryPoint{
 		_, e := rjson.HandleArrayValues(d, hd, buf)
 		return e
 	}},
+	{"HandleArrayValues/HandleObjectValues(handler collecting all strings and keys in one destination)", func(d []byte, buf *rjson.Buffer, vr *rjson.ValueReader) error {
+		var acc []byte
+		hd := collectingHandler{buf, &acc}
+		if len(d) > 0 && d[0] == '{' {
+			_, e := rjson.HandleObjectValues(d, hd, buf)
+			return e
+		}
+		_, e := rjson.HandleArrayValues(d, hd, buf)
+		return e
+	}},
+}
+
+// collectingHandler appends every string value (ReadStringBytes) and every key
+// (UnescapeStringContent) of a document to ONE growing destination, the documented append use of
+// those functions (seeded change C20r5-m2: the destination's spare capacity ignored once a string
+// has an escape, so that every call copies everything collected so far).
+type collectingHandler struct {
+	buf *rjson.Buffer
+	acc *[]byte
+}
+
+func (r collectingHandler) HandleArrayValue(d []byte) (int, error) { return r.handle(d) }
+func (r collectingHandler) HandleObjectValue(k, d []byte) (int, error) {
+	var err error
+	if *r.acc, _, err = rjson.UnescapeStringContent(k, *r.acc); err != nil {
+		return 0, err
+	}
+	return r.handle(d)
+}
+
+func (r collectingHandler) handle(d []byte) (int, error) {
+	tt, _, err := rjson.NextTokenType(d)
+	if err != nil {
+		return 0, err
+	}
+	switch tt {
+	case rjson.StringType:
+		var p int
+		*r.acc, p, err = rjson.ReadStringBytes(d, *r.acc)
+		return p, err
+	case rjson.ArrayStartType:
+		return rjson.HandleArrayValues(d, r, r.buf)
+	case rjson.ObjectStartType:
+		return rjson.HandleObjectValues(d, r, r.buf)
+	}
+	return 0, nil
 }
 
 // thresholds (explicit judgement calls about "a fixed constant multiple")
